@@ -218,6 +218,12 @@ func ruleC05(w *World, r *Report) {
 	ruleOwnershipMarksSurvive(w, r, "C05", "R05.7")
 	ruleC05TunnelPeerID(w, r)
 	ruleC05Residual(w, r, "C05", false)
+	// R05.14: the establishment handler attaches every parsed rule to the session in the iteration that parsed it,
+	// so that abortSession sees (and gives back) what earlier iterations acquired (C01 R01.J1 re-filed)
+	r.withRule("R05.14", func() { ruleC01Secondary(w, r) })
+	ruleBessWorkersReportTrue(w, r, "R05.15")
+	// R05.16: the terminations entry of a deleted PDR is addressed under the application ID of its filter (C04 R04.12)
+	ruleC04AppIDPerPDR(w, r, "C05", "R05.16")
 	// R05.9: the UP4 deletion gets through for a session with several PDRs of one direction
 	{
 		mod := w.Fn(P, "pfcpiface.(*UP4).modifyUP4ForwardingConfiguration")
@@ -849,43 +855,40 @@ func ruleC05Residual(w *World, r *Report, P string, ipOnly bool) {
 		}
 		r.floor("R05.10 RemovePDR call sites in the modification handler", n, 1)
 	}
-	// R05.11: the release condition of the UE address is not narrower than the allocation condition
+	// R05.11: the release condition of the UE address is the allocation mark and nothing else. The address is
+	// allocated by SEID for any PDR that carries CHV4 (and the mark survives an Update PDR that carries no
+	// address at all), so once a marked PDR is found the address goes back — whatever the PDR's interface,
+	// whatever its ueAddress field holds.
 	{
 		rel := w.Fn(P, "pfcpiface.releaseAllocatedIPs")
-		parse := w.Fn(P, "pfcpiface.(*pdr).parseUEAddressIE")
-		core := w.ConstInt(P, pfcpPkg, "core")
-		narrowed := false
-		for _, c := range callsIn(rel, func(c ssa.CallInstruction) bool { return staticCallee(c) != nil && staticCallee(c).Name() == "DeallocIP" }) {
-			// does every path to the release pass srcIface == core?
-			if onlyVia(rel, c.(ssa.Instruction), func(a, b *ssa.BasicBlock) bool {
-				x, op, y, ok := edgeFact(a, b)
-				k, isK := constInt(y)
-				return ok && op == token.EQL && isK && k == core && strings.HasSuffix(symOf(x).String(), "srcIface")
-			}) {
-				narrowed = true
-			}
-		}
-		if narrowed {
-			// then the mark may only be set for core-side PDRs
-			okAlloc := true
-			var at token.Pos
-			for _, st := range fieldStores(parse, "pdr")["allocIPFlag"] {
-				if c, ok := st.Val.(*ssa.Const); ok && c.Value != nil && c.Value.String() == "false" {
+		n := 0
+		okAll := true
+		var at token.Pos
+		for _, b := range rel.Blocks {
+			for _, sc := range b.Succs {
+				v, truth, ok := boolEdge(b, sc)
+				if !ok || !truth || !(strings.HasSuffix(symOf(v).String(), ".allocIPFlag") || loadsField(v, "allocIPFlag")) || len(sc.Instrs) == 0 {
 					continue
 				}
-				at = st.Pos()
-				if !onlyVia(parse, st, func(a, b *ssa.BasicBlock) bool {
-					x, op, y, ok := edgeFact(a, b)
-					k, isK := constInt(y)
-					return ok && op == token.EQL && isK && k == core && strings.HasSuffix(symOf(x).String(), "srcIface")
-				}) {
-					okAlloc = false
+				n++
+				first := sc.Instrs[0]
+				isDealloc := func(i ssa.Instruction) bool {
+					c, ok := i.(ssa.CallInstruction)
+					return ok && staticCallee(c) != nil && staticCallee(c).Name() == "DeallocIP"
+				}
+				if isDealloc(first) {
+					continue
+				}
+				if miss := reach(rel, first, isReturn, isDealloc, nil); miss != nil {
+					okAll = false
+					at = miss.Pos()
 				}
 			}
-			r.check(okAlloc, "R05.11", w.FuncName(rel), "the UE address is released under the condition it was allocated under", w.Pos(at), "allocation also limited to core-side PDRs", "releaseAllocatedIPs gives the address back only for a marked PDR whose source interface is core, but parseUEAddressIE allocates (and marks) for any PDR that carries CHV4: an address allocated through an access-side PDR is never released")
-		} else {
-			r.ok("R05.11", w.FuncName(rel), "the UE address is released under the condition it was allocated under", w.Pos(rel.Pos()), "release not narrowed by the interface")
 		}
+		if !at.IsValid() {
+			at = rel.Pos()
+		}
+		r.check(okAll && n > 0, "R05.11", w.FuncName(rel), "the UE address is released under the condition it was allocated under", w.Pos(at), "a marked PDR always leads to DeallocIP", ifelse(n == 0, "releaseAllocatedIPs no longer looks at allocIPFlag", "after a PDR with allocIPFlag was found, releaseAllocatedIPs can still return without DeallocIP (a further condition on the PDR — its interface, its ueAddress field — narrows the release): the address was allocated by SEID for any marked PDR, and the mark survives an Update PDR that carries no address, so such a session's address is never given back"))
 	}
 	// R05.13: parsePDR allocates the session's UE address while parsing a Create PDR with CHV4. The
 	// establishment handler gives it back when the request is refused (abortSession); the modification
@@ -960,4 +963,39 @@ func ruleC05Residual(w *World, r *Report, P string, ipOnly bool) {
 		reach := w.CG().Reachable([]*ssa.Function{upd}, func(e *Edge) bool { return e.Kind != "go" })[rm]
 		r.check(reach, "R05.12", w.FuncName(upd), "an Update FAR that changes the tunnel drops the reference on the previous tunnel peer", w.Pos(upd.Pos()), "removeGTPTunnelPeer reachable from sendUpdate", "sendUpdate adds the session's reference to the new tunnel peer (addOrUpdateGTPTunnelPeer) but nothing on the modification path removes it from the previous one: after a hand-over the old peer keeps {F-SEID, FAR ID} in usedBy for ever, the Session Deletion only dereferences the current peer, and the old peer's entry and ID are never released")
 	}
+}
+
+// ruleBessWorkersReportTrue (R05.15, re-filed as R03.13): SendMsgToUPF on BESS starts one worker per rule,
+// joins them with GRPCJoin and cancels their shared context when the join returns; its result is ignored
+// and the request is answered "accepted" either way. GRPCJoin returns at the first `false` it receives —
+// so a worker that reports `false` (to "fail fast") makes the join return while the other workers are
+// still writing, the deferred cancel aborts their writes, and the rules they were deleting (adding) stay
+// (are missing) although the request was accepted. Workers only ever report true, or nothing.
+func ruleBessWorkersReportTrue(w *World, r *Report, rule string) {
+	n := 0
+	for _, f := range w.Funcs {
+		root := f
+		for root.Parent() != nil {
+			root = root.Parent()
+		}
+		if !strings.HasPrefix(w.FuncName(root), "pfcpiface.(*bess).") {
+			continue
+		}
+		allInstrs(f, func(i ssa.Instruction) {
+			s, ok := i.(*ssa.Send)
+			if !ok {
+				return
+			}
+			if ct, ok := s.Chan.Type().Underlying().(*types.Chan); !ok || ct.Elem().Underlying().String() != "bool" {
+				return
+			}
+			if !strings.Contains(symOf(throughFreeVar(s.Chan)).String(), "done") {
+				return
+			}
+			n++
+			v, isK := constBool(s.X)
+			r.check(isK && v, rule, w.FuncName(f), "a BESS worker reports completion, never failure", w.Pos(s.Pos()), "done <- true", "the worker sends "+valueText(s.X)+" on done: GRPCJoin returns at the first false, the deferred cancel of the shared context aborts the writes of the request's other workers, and the request is still answered 'accepted' — the rules those workers were deleting stay in BESS after the session is gone")
+		})
+	}
+	r.floor(rule+" completion signals of BESS workers", n, 5)
 }
